@@ -42,6 +42,9 @@ type c15Case struct {
 	// nonterminal symbols, negated ones as -1-symbol. A lookahead derives nothing, but the
 	// nonterminals it mentions are reachable through it.
 	LA map[int][]int `json:"la,omitempty"`
+	// PrecRules: rules (indices into G.Rules) that end in `%prec <terminal>`: the marker wraps
+	// the whole rule in the syntax model and changes nothing about the symbols of the rule.
+	PrecRules map[int]int `json:"precrules,omitempty"`
 }
 
 func genSExpr(t *rapid.T, g *gSpec, named int, depth int) *sExpr {
@@ -134,6 +137,15 @@ func c15Gen(t *rapid.T) c15Case {
 				preds = append(preds, nt)
 			}
 			c.LA[ri] = preds
+		}
+	}
+	if rapid.IntRange(0, 2).Draw(t, "precMarkers") == 0 && len(g.Rules) > 0 && g.T > 1 {
+		c.PrecRules = map[int]int{}
+		for n := rapid.IntRange(1, 3).Draw(t, "nprec"); n > 0; n-- {
+			ri := rapid.IntRange(0, len(g.Rules)-1).Draw(t, "precRule")
+			if g.Rules[ri].L < base {
+				c.PrecRules[ri] = rapid.IntRange(1, g.T-1).Draw(t, "precTerm")
+			}
 		}
 	}
 	return c
@@ -250,6 +262,9 @@ func (c *c15Case) render() string {
 			}
 			if len(parts) == 0 {
 				parts = []string{"%empty"}
+			}
+			if pt, ok := c.PrecRules[ri]; ok {
+				parts = append(parts, "%prec "+tmTermName(g, pt))
 			}
 			sb.WriteString(strings.Join(parts, " ") + "\n")
 		}
@@ -796,7 +811,7 @@ func seq(lo, hi int) []int {
 func TestC15(t *testing.T) {
 	p := &prop[c15Case]{
 		ID:   "C15",
-		Rule: "plain context-free grammars (C01 generator: mutated LALR families and random grammars with nullable and unreachable nonterminals, 1..2 inputs, 15% no-eoi) extended with 0..4 `%generate sN = set(...)` directives, 0..2 nonterminals defined as `X: set(...)` and used in 1..2 rules, an occasional %assert, the 'error' terminal in 1..2 rules, and in a quarter of the cases 1..2 rules starting with a lookahead `(?= A & !B)` (the nonterminals it mentions are reachable through it); set expressions of depth <= 4 over any/first/last/follow/precede of terminals (incl. eoi) and nonterminals, references to named sets (forward, backward, self), |, & and ~. Compiled with compiler.Compile; Grammar.Sets, the rules of set nonterminals and afterErr/IsRecovering are compared with an independent stratified least-fixpoint evaluation over the rules reachable from the first end-of-input input (complement relative to all terminals of the compiled grammar); a complement inside a dependency cycle must be rejected with the documented message and nothing else may be. Non-trivial: a named set that is neither empty nor everything, a non-empty rule set, afterErr, or a rejected complement cycle; distinct by case JSON / source.",
+		Rule: "plain context-free grammars (C01 generator: mutated LALR families and random grammars with nullable and unreachable nonterminals, 1..2 inputs, 15% no-eoi) extended with 0..4 `%generate sN = set(...)` directives, 0..2 nonterminals defined as `X: set(...)` and used in 1..2 rules, an occasional %assert, the 'error' terminal in 1..2 rules, and in a quarter of the cases 1..2 rules starting with a lookahead `(?= A & !B)` (the nonterminals it mentions are reachable through it), and in a third of the cases `%prec t` markers on 1..3 rules (they wrap the rule in the syntax model and must not change any set); set expressions of depth <= 4 over any/first/last/follow/precede of terminals (incl. eoi) and nonterminals, references to named sets (forward, backward, self), |, & and ~. Compiled with compiler.Compile; Grammar.Sets, the rules of set nonterminals and afterErr/IsRecovering are compared with an independent stratified least-fixpoint evaluation over the rules reachable from the first end-of-input input (complement relative to all terminals of the compiled grammar); a complement inside a dependency cycle must be rejected with the documented message and nothing else may be. Non-trivial: a named set that is neither empty nor everything, a non-empty rule set, afterErr, or a rejected complement cycle; distinct by case JSON / source.",
 		Assume: []string{"set nonterminals count as non-nullable while sets are resolved (syntax/nullable.go), also when the set turns out empty", "%assert directives are not enforced by the compiler at this commit; they are generated only to make sure they do not disturb resolution"},
 		Quick:  16000, Thorough: 600000,
 		Gen:   c15Gen,
